@@ -20,7 +20,9 @@ QuickSlices == <<
      [s \in {"api", "web"} |-> IF s = "web" THEN {"http", "two"} ELSE {"local", "udp"}],
      {1}, [c \in {"large", "small"} |-> IF c = "large" THEN {QLarge} ELSE {QOdd}]),
   \* D: unit forms
-  UnitsSlice(CpusQuick) >>
+  UnitsSlice(CpusQuick,
+             UNION {MemForms, DecForms("G", 0..17), DecForms("M", {1, 4, 8, 16, 100})},
+             UNION {StorageForms, DecForms("G", 0..20), DecForms("M", 4..8)}) >>
 
 
 ASSUME ExportDocs(Slices)
